@@ -2,8 +2,10 @@
 //   D-cases (part 1): the real KernelSocketStream (net/kernel_socket.cpp compiled into this TU, running on the
 //     real net/basic_socket.cpp inside libphoton.so) over a scripted kernel: recv/send/recvmsg/sendmsg/sendfile
 //     are interposed by this executable and the vCPU's master event engine is a scripted MasterEventEngine.
-//   E-cases (part 2): see engine.inc — the real EventEngineEPoll (io/epoll.cpp inside libphoton.so) over
+//   E-cases (part 2): see engine.inc — the real EventEngineEPoll (io/epoll.cpp compiled into this TU) over
 //     interposed epoll_create/epoll_ctl/epoll_wait/eventfd.
+//   N-cases (part 2b): the real EventEngineEPollNG (io/epoll-ng.cpp compiled into this TU) over the same mock
+//     kernel with one interest list per fake epoll descriptor and nested-epoll readiness.
 // One output line per case, same format as ocaml/C10_run.ml.
 #include <cstdio>
 #include <cstdlib>
@@ -43,6 +45,13 @@
 #include "net/kernel_socket.cpp"
 // the file-local class EventEngineEPoll
 #include "io/epoll.cpp"
+// the file-local class EventEngineEPollNG (its helper macros must not leak into the rest of this file)
+#include "io/epoll-ng.cpp"
+#undef engine
+#undef rpoller
+#undef wpoller
+#undef epoller
+#undef poller
 
 using photon::net::KernelSocketStream;
 
@@ -255,6 +264,7 @@ int main(int argc, char** argv) {
         auto f = split(line, ' ');
         if (f[0] == "D") run_D(f);
         else if (f[0] == "E") run_E(f);
+        else if (f[0] == "N") run_N(f);
         else if (f[0] == "R") run_R(f);
         else puts("BADCASE");
         fflush(stdout);
